@@ -86,6 +86,12 @@ fn work_units(call: &Call, cols: usize, rows: usize, lines_before: usize, lines_
     }
 }
 
+/// a call (or a steady-state window) is only examined above this much thread CPU time ...
+const EXAMINE_NS: u64 = 30_000_000;
+/// ... and only becomes a violation if the minimum of three isolated re-runs still exceeds its
+/// work-proportional budget AND this absolute amount
+const CONFIRM_NS: u64 = 100_000_000;
+
 thread_local! {
     static PROGRESS: StdCell<usize> = StdCell::new(0);
     static NS_PER_UNIT: StdCell<f64> = StdCell::new(0.0);
@@ -151,7 +157,7 @@ fn run(h: &History, seed: u64, with_queries: bool) -> Option<Suspect> {
         let dt = cpu_ns().saturating_sub(t0);
         let after = vt.lines().len();
         std::hint::black_box(&out);
-        if npu > 0.0 && dt > 250_000_000 {
+        if npu > 0.0 && dt > EXAMINE_NS {
             let w = work_units(call, cols, rows, before, after, &mut pm);
             // 200x the calibrated cost plus a constant
             let budget = (5_000_000.0 + 200.0 * npu * w as f64) as u64;
@@ -168,7 +174,7 @@ fn run(h: &History, seed: u64, with_queries: bool) -> Option<Suspect> {
             let n = queries(&vt, i % 4 == 0);
             std::hint::black_box(n);
             let dt = cpu_ns().saturating_sub(t0);
-            if npu > 0.0 && dt > 250_000_000 {
+            if npu > 0.0 && dt > EXAMINE_NS {
                 let (c2, r2) = vt.size();
                 let w = 40 * (after as u64 * c2 as u64 + (c2 * r2) as u64) + 1000;
                 let budget = (5_000_000.0 + 200.0 * npu * w as f64) as u64;
@@ -264,7 +270,7 @@ pub fn c01_history(h: &History, seed: u64, rep: &mut Report) {
                 min_ns = 0;
                 break;
             }
-            if min_ns > s.budget && min_ns > 500_000_000 {
+            if min_ns > s.budget && min_ns > CONFIRM_NS {
                 let mut cut = h.clone();
                 cut.calls.truncate(s.call + 1);
                 rep.violation(
@@ -426,7 +432,109 @@ pub fn work(ctx: &Ctx, rep: &mut Report, status_file: Option<&str>) {
         c01_history(&h, u as u64, rep);
     }
     if let Some(f) = status_file {
+        let _ = std::fs::write(f, "steady\n");
+    }
+    // steady state: thousands of small calls on a full scrollback (amortised cost)
+    let n = ctx.scale(96, 640);
+    for u in ctx.units(n) {
+        let h = steady_history(ctx.seed, u);
+        if u == 0 {
+            rep.sample(format!("steady state: {}x{} limit {:?}: one call of {} chars, then {} small calls such as {:?}", h.cols, h.rows, h.limit, h.all_text().chars().count().min(999_999_999), h.calls.len() - 1, h.calls.get(1)));
+        }
+        c01_steady(&h, rep);
+    }
+    if let Some(f) = status_file {
         let _ = std::fs::write(f, "done\n");
+    }
+}
+
+// ---- amortised cost: many small calls on a terminal whose scrollback is full ---------------------
+
+/// history: one call that fills the scrollback well beyond the limit, then N small scrolling calls
+pub fn steady_history(seed: u64, u: usize) -> History {
+    let mut r = Rng::derive(seed, &[0xC01, 7, u as u64]);
+    let limit = *r.pick(&[100usize, 1000, 10_000, 100_000, 100_000, 400_000]);
+    let cols = r.range(1, 12);
+    let rows = r.range(1, 5);
+    let mut h = History::new(cols, rows, Some(limit));
+    let fill = limit + limit / 3 + rows + 7;
+    let unit = *r.pick(&["\n", "ab\r\n", "\x1bD"]);
+    h.calls.push(Call::FeedStr(unit.repeat(fill)));
+    let n = r.range(1500, 4000);
+    let small = ["\n", "x\r\n", "\x1bD", "\x1b[S", "abc\r\n", "\x1bE", "\u{85}"];
+    let which = r.below(small.len());
+    for i in 0..n {
+        let s = if r.chance(1, 8) { small[r.below(small.len())] } else { small[which] };
+        if i % 2 == 0 {
+            h.calls.push(Call::FeedStr(s.to_string()));
+        } else {
+            h.calls.push(Call::Feed(s.to_string()));
+            h.calls.push(Call::FeedStr(String::new()));
+        }
+    }
+    h
+}
+
+/// total CPU of the small calls and the work they request, with an amortised trim allowance
+fn run_steady(h: &History) -> (u64, u64) {
+    let mut vt = h.build();
+    drop(apply(&mut vt, &h.calls[0], Handling::Consume));
+    let (cols, rows) = vt.size();
+    let limit = h.limit.unwrap_or(0) as u64;
+    let mut w = 2 * limit + 1000;
+    let t0 = cpu_ns();
+    for c in &h.calls[1..] {
+        if let Call::FeedStr(s) | Call::Feed(s) = c {
+            // each character does O(cols + rows) work and scrolls at most one line; a trim costs
+            // O(retained lines) but happens only once per limit/10 scrolled lines: 16 units per line
+            w += s.chars().count() as u64 * (cols + rows + 16) as u64 + 4;
+        }
+        let out = apply(&mut vt, c, Handling::Consume);
+        std::hint::black_box(&out);
+    }
+    (cpu_ns().saturating_sub(t0), w)
+}
+
+pub fn calibrate_here() {
+    let npu = calibrate();
+    NS_PER_UNIT.with(|n| n.set(npu));
+}
+
+pub fn c01_steady(h: &History, rep: &mut Report) {
+    rep.evaluations += 1;
+    rep.count("steady_state_sessions", 1);
+    rep.count("calls", h.calls.len() as u64);
+    let npu = NS_PER_UNIT.with(|n| n.get());
+    match guarded(|| run_steady(h)) {
+        Guarded::Done((dt, w)) => {
+            let budget = (5_000_000.0 + 200.0 * npu * w as f64) as u64;
+            rep.key(mix(0x57EAD, (h.limit.unwrap_or(0) as u64) * 16 + (h.cols.min(3) * 4 + h.rows.min(3)) as u64));
+            // head-room of the budget on this tree (evidence only)
+            let pct = dt.saturating_mul(100) / budget.max(1);
+            rep.count(if pct < 10 { "steady_sessions_using_under_10pct_of_budget" } else if pct < 50 { "steady_sessions_using_10_to_50pct_of_budget" } else { "steady_sessions_using_over_50pct_of_budget" }, 1);
+            if npu > 0.0 && dt > EXAMINE_NS && dt > budget {
+                let mut min_ns = dt;
+                for _ in 0..3 {
+                    if let Guarded::Done((d2, _)) = guarded(|| run_steady(h)) {
+                        min_ns = min_ns.min(d2);
+                    }
+                }
+                if min_ns > budget && min_ns > CONFIRM_NS {
+                    rep.violation(
+                        "C01",
+                        format!(
+                            "{} small calls on a terminal with a full scrollback (limit {}) took {:.3}s of CPU (minimum of 4 runs) against a work-proportional budget of {:.3}s: the cost per call grows with the retained scrollback",
+                            h.calls.len() - 1, h.limit.unwrap_or(0), min_ns as f64 / 1e9, budget as f64 / 1e9
+                        ),
+                        h,
+                    );
+                } else {
+                    rep.count("cost_suspects_not_confirmed", 1);
+                }
+            }
+        }
+        Guarded::AvtPanic(msg, loc) => rep.violation("C01", format!("panic at {}: {}", loc, msg), h),
+        Guarded::HarnessPanic(msg, loc) => rep.inconclusive(format!("harness panic at {}: {}", loc, msg)),
     }
 }
 
